@@ -14,6 +14,10 @@ import (
 )
 
 func main() {
+	if p := os.Getenv("VERIF_PROBE"); p != "" {
+		// first-call probe of C04: this process does nothing but the probed operation
+		os.Exit(props.RunProbe(p))
+	}
 	var (
 		worker    = flag.Bool("worker", false, "run as worker")
 		prop      = flag.String("prop", "", "property id")
